@@ -131,6 +131,123 @@ def ms_add_constraints(M, intg, with_path=True):
     c.prove(QUAL + ":ensures:len-xk", (vc_len(meth.xk) == N * M + 1))
 
 
+def ss_add_constraints(M, intg):
+    """SingleShooting.add_constraints: for every N >= 1: the states it reports are the recursion
+    X[0] = initial-state variable, X[k+1] = M textbook steps from X[k]; no gap rows; placement."""
+    from rockit import SingleShooting
+    pre = Pre(method="SS", M=M, intg=intg)
+    ocp, meth, opti, N = pre.ocp, pre.meth, pre.opti, pre.N
+    x, u, t = pre.x, pre.u, ocp.t
+    f1, l1 = _flag("include_first_1"), _flag("include_last_1")
+    f2, l2 = _flag("include_first_2"), _flag("include_last_2")
+    e1 = ufun("c1", 1, [x, u, t, pre.pc, pre.vc, pre.pcp, pre.vcp, pre.p, pre.v])
+    ocp.subject_to(e1 <= 1.0, include_first=f1, include_last=l1)
+    e2 = ufun("c2", 1, [x, u, t, pre.pc])
+    ocp.subject_to(e2 <= 2.0, grid="integrator", include_first=f2, include_last=l2)
+    e3 = ufun("b0", 1, [ocp.at_t0(x), pre.p])
+    ocp.subject_to(e3 == 0.0)
+    e4 = ufun("bf", 1, [ocp.at_tf(x)])
+    ocp.subject_to(e4 <= 0.0)
+    QUAL = "single_shooting:SingleShooting.add_constraints"
+    c = ctx()
+    # spec function of the recursion: Psi(0) = X0, Psi(j+1) = last of propagate(j, Psi(j))   (oracle steps)
+    Psi_f = opti.family("Psi", x.numel())
+    X0 = pre.Xf(0)
+
+    def Psi(j):
+        j = unwrap_int(j)
+        if isinstance(j, int) and j == 0:
+            return X0
+        if isinstance(j, SymInt) and j == 0:
+            return X0
+        return Psi_f(j)
+
+    def unfold(j):
+        """instantiate the defining recurrence at j:  Psi(j+1) := oracle steps from Psi(j)"""
+        nxt = Psi_f(unwrap_int(j + 1))
+        val = pre.propagate(j, Psi(j), intg)[-1]
+        for a, b in zip(nxt.e, val.e):
+            c.subst.append((a, ca.tz(b)))
+
+    def FF_of(F, j):
+        return F(x0=Psi(j), u=meth.U[j], t0=meth.control_grid[j], T=meth.control_grid[unwrap_int(j + 1)] - meth.control_grid[j],
+                 p=meth.get_p_sys(ocp, j), z0=meth.Z0[0])
+
+    def state0(k, env):
+        F = env["F"]
+        def xk_at(idx):
+            j, i = unwrap_int(idx // M), unwrap_int(idx % M)
+            Xi = FF_of(F, j)["Xi"]
+            for ii in range(M):
+                if i == ii:
+                    return Xi[:, ii]
+        def pc_at(idx):
+            j, i = unwrap_int(idx // M), unwrap_int(idx % M)
+            pcs = ca.horzsplit(FF_of(F, j)["poly_coeff"], FF_of(F, j)["poly_coeff"].shape[1] // M)
+            for ii in range(M):
+                if i == ii:
+                    return pcs[ii]
+        st = {
+            "FFs": SymList(k, lambda j: FF_of(F, j), "FFs"),
+            "self.X": SymList(unwrap_int(N + 1), lambda j, k=k: Psi(j) if j <= k else None, "X"),
+            "self.xk": SymList(unwrap_int(k * M), xk_at, "xk"),
+            "self.xqk": SymList(unwrap_int(k * M + 1), lambda idx: ca.DM.zeros(0) if idx == 0 else ca.MX(0, 1), "xqk"),
+            "self.zk": SymList(unwrap_int(k * M), lambda idx: ca.MX(0, 1), "zk"),
+            "self.Q": SymList(unwrap_int(N + 1), lambda idx, k=k: ca.DM.zeros(0) if idx == 0 else (ca.MX(0, 1) if idx <= k else None), "Q"),
+            "self.q": ca.DM.zeros(0) if (isinstance(k, int) and k == 0) else ca.MX(0, 1),
+        }
+        if isinstance(k, SymInt):
+            if k == 0:
+                st["self.Z"] = SymList(0, lambda idx: ca.MX(0, 1), "Z")
+                st["self.q"] = ca.DM.zeros(0)
+            else:
+                st["self.Z"] = SymList(unwrap_int(k + 1), lambda idx: ca.MX(0, 1), "Z")
+        else:
+            st["self.Z"] = SymList(0 if k == 0 else k + 1, lambda idx: ca.MX(0, 1), "Z")
+        if env["self"].poly_coeff is not None:
+            st["self.poly_coeff"] = SymList(unwrap_int(k * M), pc_at, "poly_coeff")
+        if isinstance(k, SymInt):
+            unfold(k)          # the recurrence at the index the step obligation needs
+        return st
+
+    def emits1(k, env):
+        rows = []
+        xs = pre.propagate(k, Psi(k), intg)
+        d = pre.env(k)
+        tk = ca.MX._raw(1, 1, [pre.tg(k)])
+        h = (ca.MX._raw(1, 1, [pre.tg(unwrap_int(k + 1))]) - tk) / M
+        for l in range(M):
+            if l == 0 and ((k == 0) & ~f2):
+                continue
+            tl = tk + l * h if l else tk
+            rows.append((("integrator", l), "le", ufun("c2", 1, [xs[l], d["u"], tl, d["pc"]]) - 2.0, 1))
+        if not ((k == 0) & ~f1):
+            rows.append((("control",), "le", ufun("c1", 1, [Psi(k), d["u"], tk, d["pc"], d["vc"], pre.Pcpf(k), pre.Vcpf(k), d["p"], d["v"]]) - 1.0, 1))
+        return rows
+
+    loops.SPECS.clear()
+    loops.SPECS[(QUAL, 0)] = loops.LoopSpec(state=state0)
+    loops.SPECS[(QUAL, 1)] = loops.LoopSpec(emits=emits1)
+    with loops.patched(SingleShooting, "add_constraints", QUAL):
+        n0 = len(opti.constraints)
+        meth.add_constraints(ocp, opti)
+    emitted = opti.constraints[n0:]
+    expected = [(("point", "b0"), "expr", meth.eval(ocp, e3) == 0.0, 1), ("marker", QUAL, 1)]
+    d = pre.env(unwrap_int(N - 1), node=N)
+    tN = ca.MX._raw(1, 1, [pre.tg(N)])
+    if l1:
+        expected.append((("control", "final"), "le", ufun("c1", 1, [Psi(N), d["u"], tN, d["pc"], d["vc"], pre.Pcpf(N), pre.Vcpf(N), d["p"], d["v"]]) - 1.0, 1))
+    if l2:
+        expected.append((("integrator", "final"), "le", ufun("c2", 1, [Psi(N), d["u"], tN, d["pc"]]) - 2.0, 1))
+    contract.EmissionChecker(opti).compare(QUAL + ":ensures:outside-loops", emitted, expected)
+    # C01: the reported states are the recursion
+    j = fresh_int("j")
+    c.assume((j >= 0).z)
+    c.assume((j <= N).z)
+    contract.compare(QUAL + ":ensures:reported-state-is-the-recursion", meth.X[j], Psi(j))
+    contract.compare(QUAL + ":ensures:xk-last-is-final-state", meth.xk[-1], Psi(N))
+
+
 def vc_len(x):
     from vc.symlist import vc_len as f
     return f(x)
@@ -143,6 +260,14 @@ def tasks(tier):
         out.append(Task("C01/proof/MS.add_constraints[N symbolic, M=%d, %s]" % (M, intg),
                         lambda M=M, intg=intg: ms_add_constraints(M, intg), kind="proof",
                         functions=["multiple_shooting:MultipleShooting.add_constraints"],
+                        replay=dict(harness="nlp_diff_any", families=[["C04", ["MS-"]], ["C01", ["MS-"]], ["C09", ["MS-"]]], parts=["dynamics", "placement"]),
                         bound=dict(N="symbolic (all N>=1)", k="symbolic (all 0<=k<N)", M=M, intg=intg, dims="nx=2,nu=1, one parameter/variable of every grid kind"),
                         note="loops cut by closed-form invariants; helpers inlined"))
+    for M, intg in combos:
+        out.append(Task("C01/proof/SS.add_constraints[N symbolic, M=%d, %s]" % (M, intg),
+                        lambda M=M, intg=intg: ss_add_constraints(M, intg), kind="proof",
+                        functions=["single_shooting:SingleShooting.add_constraints"],
+                        replay=dict(harness="nlp_diff_any", families=[["C04", ["SS-"]], ["C01", ["SS-"]], ["C09", ["SS-"]]], parts=["dynamics", "placement", "ss-states"]),
+                        bound=dict(N="symbolic (all N>=1)", k="symbolic", M=M, intg=intg, dims="nx=2,nu=1"),
+                        note="recursion Psi defined by the oracle step; loops cut by closed-form invariants"))
     return out
